@@ -29,6 +29,8 @@ HOST = """Y: !record
     f: float
     e: E
     r: Z
+    nd: int[x, y]
+    mx: !array {items: int, dimensions: [x, ~, y]}
 E: !enum
   values: [a, b]
 Z: !record
@@ -168,8 +170,9 @@ def gen_inputs(tier):
                 yield ("typestruct/" + hn, {"model.yml": HOST + "G<T>: T*\n" + h % q(e)}, PKG)
     # (2d) postfix chains in computed fields: atom x optional unary minus x every sequence of <= 2 (quick) / 3 postfix operators
     #      (conversion, member access, subscripts, calls) - the operators whose precedence interacts in the expression parser
-    atoms = ["x", "v", "m", "r", "a", "1"]
-    posts = [" as int", " as long", " as Y", ".x", ".f", "[0]", "[]", "[0, 1]", "['k']", "()", "(0)", "[x: 0]", "[x: 0, y: 1]", "[q: 0, 1]"]
+    atoms = ["x", "v", "m", "r", "a", "1", "nd", "mx"]
+    posts = [" as int", " as long", " as Y", ".x", ".f", "[0]", "[]", "[0, 1]", "['k']", "()", "(0)", "[x: 0]", "[x: 0, y: 1]", "[q: 0, 1]",
+             "[y: 0, x: 1]", "[y: 0, x: 1, x: 2]", "[x: 0, 1, y: 2]"]
     for atom in atoms:
         for pre in ("", "-"):
             for n in range(1, (2 if quick else 3) + 1):
@@ -207,6 +210,29 @@ def gen_inputs(tier):
             yield ("computed-cycle", {"model.yml": HOST.replace("E: !enum", "  computedFields:\n" + body + "E: !enum", 1)}, PKG)
         body = "    ca: %s\n" % (e1 % "ca")
         yield ("computed-cycle", {"model.yml": HOST.replace("E: !enum", "  computedFields:\n" + body + "E: !enum", 1)}, PKG)
+    # (2h) two instances of a generic record whose computed field is an expression of every kind, compared by the front end
+    #      (union cases, explicit tags, a previous version): the structural equality of definitions has to cover every node kind
+    kinds = ["x", "1", "1.5", "'s'", "-x", "x + 1", "x * 1.5", "x as T", "x as long", "size(v)", "v[0]", "m['k']", "r.q", "t", "(x)", "x ** 2",
+             "\n      !switch o:\n        int i: i\n        _: 0", "\n      !switch u:\n        int: 1\n        string z: size(z)"]
+    uses = ["U: [GR<int>, GR<int>]\n", "U: [GR<int>, GR<float>]\n", "U: !union {a: GR<int>, b: GR<int>}\n", "U: !union {a: GR<int>, b: GR<long>}\n",
+            "U: !record\n  fields:\n    a: GR<int>\n    b: GR<int>\n    c: [null, GR<int>, GR<string>]\n", "U: !map {keys: string, values: [GR<int>, GR<int>]}\n",
+            "U: GR<GR<int>>\nV: [U, GR<GR<int>>]\n"]
+    for kd in kinds:
+        gr = ("GR<T>: !record\n  fields:\n    x: int\n    t: T\n    v: int*\n    m: string->int\n    r: Z\n    o: int?\n    u: [int, string]\n"
+              "  computedFields:\n    c: %s\n" % kd)
+        for us in uses:
+            yield ("expr-equal", {"model.yml": HOST + gr + us}, PKG)
+    # (2i) deep nesting of every constructor that nests: the cost per level must stay far below a doubling of a doubling
+    #      (hang classifier only; depth 24 of generic references is a recorded finding and is not part of the family)
+    for depth in ((8, 12, 16) if quick else (8, 12, 16, 18)):
+        nests = {"generic": "G<" * depth + "int" + ">" * depth, "generic-unknown": "G<" * depth + "Missing" + ">" * depth,
+                 "vector": "int" + "*" * depth, "optional-vector": "int" + "?*" * (depth // 2), "map": "string->" * depth + "int",
+                 "array": "int" + "[]" * depth, "generic-pair": "G2<" * depth + "int" + ", int>" * depth}
+        for nm, t in nests.items():
+            yield ("nesting/%s/%d" % (nm, depth), {"model.yml": HOST + "G<T>: T*\nG2<A, B>: !record\n  fields:\n    a: A\n    b: B\nW: !record\n  fields:\n    w: %s\n" % q(t)}, PKG)
+        yield ("nesting/parentheses/%d" % depth, {"model.yml": HOST.replace("E: !enum", "  computedFields:\n    c: %s\nE: !enum" % q("(" * depth + "x" + ")" * depth), 1)}, PKG)
+        yield ("nesting/unary/%d" % depth, {"model.yml": HOST.replace("E: !enum", "  computedFields:\n    c: %s\nE: !enum" % q("-" * depth + "x"), 1)}, PKG)
+        yield ("nesting/yaml-flow/%d" % depth, {"model.yml": HOST + "W: " + "[" * depth + "int" + "]" * depth + "\n"}, PKG)
     # (2c) every import graph on <= 3 packages (termination and located errors of the loader; verdicts are C18's business)
     import c18
     for n in range(1, 4):
